@@ -16,6 +16,7 @@ from concurrent.futures import ProcessPoolExecutor
 # (name, file regex, line regex, replacement (None = delete line))
 MUTATORS = {
     "C01": [
+        ("conj mangles inner labels only", r"quimb/tensor/tensor_core\.py$", r"^(\s+)which = oset\(tn\.ind_map\) - tags_to_oset\(output_inds\)\s*$", r"\1which = oset(tn.inner_inds()) - tags_to_oset(output_inds)"),
         ("drop exponent= in contract", r"quimb/tensor/tensor_core\.py$", r"^(\s+)exponent=self\.exponent,\s*$", None),
         ("exponent not added when combining", r"quimb/tensor/tensor_core\.py$", r"^(\s+)self\.exponent = self\.exponent \+ tn\.exponent\s*$", r"\1pass"),
         ("astype drops is_conj", r"quimb/tensor/tensor_core\.py$", r"^(\s+)is_conj=self\.is_conj,\s*$", None),
@@ -43,6 +44,9 @@ MUTATORS = {
         ("strip_exponent forgets exponent", r"quimb/tensor/tensor_core\.py$", r"^(\s+)self\.exponent = self\.exponent \+ do\(\"log10\", stripped_factor\)\s*$", r"\1pass"),
     ],
     "C05": [
+        ("dense fall-back drops renorm", r"quimb/tensor/decomp\.py$", r"^(\s+)x, cutoff, cutoff_mode, max_bond, absorb, renorm\s*$", r"\1x, cutoff, cutoff_mode, max_bond, absorb"),
+        ("isometry flag ignores the shape", r"quimb/tensor/tensor_core\.py$", r"^(\s+)left_isom = left\.shape\[-1\] <= prod\(left_dims\)\s*$", r"\1pass"),
+        ("eigh keeps signed values", r"quimb/tensor/decomp\.py$", r"^(\s+)s = (xp|np)\.abs\(s\)\s*$", r"\1pass", r"^eigh_truncated"),
         ("numba absorb left<->right", r"quimb/tensor/decomp\.py$", r"^(\s+)return U, None, ldmul_numba\(s, VH\)\s*$", r"\1return rdmul_numba(U, s), None, VH"),
         ("power for sum1 modes", r"quimb/tensor/decomp\.py$", r"^(\s+)pow = 1\s*$", r"\1pow = 2"),
         ("sentinel != -1", r"quimb/tensor/decomp\.py$", r"^(\s+)if max_bond > 0:\s*$", r"\1if max_bond != -1:"),
@@ -80,6 +84,8 @@ MUTATORS = {
         ("fit memory updated before sweep", r"quimb/tensor/tn1d/compress\.py$", r"^(\s+)next_direction = next\(sweeps\)\s*$", r"\1next_direction = next(sweeps)\n\1old_direction = next_direction"),
     ],
     "C10": [
+        ("bond expansion keeps the skip licence", r"quimb/tensor/tn1d/dmrg\.py$", r"^(\s+)canonize = True\s*$", r"\1pass"),
+        ("two-site update claims isometry", r"quimb/tensor/tn1d/dmrg\.py$", r"^(\s+)self\._k\[i\]\.modify\(data=L, inds=\(\*uix_L, u_bond_ind\)\)\s*$", r"\1self._k[i].modify(data=L, inds=(*uix_L, u_bond_ind), left_inds=uix_L)"),
         ("drop bra update", r"quimb/tensor/tn1d/dmrg\.py$", r"^(\s+)self\._b\[[^\]]+\]\.modify\(.*\)\s*$", None),
         ("bra without conj", r"quimb/tensor/tn1d/dmrg\.py$", r"^(\s+self\._b\[[^\]]+\]\.modify\(data=\w+)\.conj\(\)(.*)$", r"\1\2"),
         ("drop bra=", r"quimb/tensor/tn1d/(dmrg|core)\.py$", r"^(\s+)bra=(bra|self\._b),\s*$", None),
@@ -129,6 +135,7 @@ MUTATORS = {
         ("range not rejected", r"quimb/core\.py$", r"^(\s+)raise ValueError\(f\"Ownership \(\{ri\}, \{rf\}\) not in range \[0-\{D\}\]\.\"\)\s*$", r"\1pass"),
     ],
     "C16": [
+        ("running row counter across blocks", r"quimb/core\.py$", r"^(\s+)ia, ib = divmod\(i, p\)\s*$", r"\1ib += 1"),
         ("every thread does all blocks", r"quimb/core\.py$", r"^(\s+)for b in range\(thread_rank, num_blocks, num_threads\):\s*$", r"\1for b in range(num_blocks):"),
         ("no lower clamp", r"quimb/core\.py$", r"^(\s+)num_blocks = max\(num_blocks, 1\)\s*$", None),
         ("futures unobserved", r"quimb/core\.py$", r"^(\s+)future\.result\(\)\s*$", r"\1pass"),
@@ -145,6 +152,7 @@ MUTATORS = {
         ("selector returns positions", r"quimb/linalg/numpy_linalg\.py$", r"^(\s+)return np\.argsort\(_SORT_FUNCS\[method\.upper\(\)\]\(a\)\)\s*$", r"\1if method.upper() == 'SA':\n\1    return np.arange(a.size)\n\1return np.argsort(_SORT_FUNCS[method.upper()](a))"),
     ],
     "C18": [
+        ("updater forgets the clock", r"quimb/evo\.py$", r"^(\s+)self\._t = t\s*$", r"\1pass"),
         ("expm ignores kind", r"quimb/evo\.py$", r"^(\s+)self\._update_method = self\._update_to_expm_dop\s*$", r"\1self._update_method = self._update_to_expm_ket"),
         ("callback before state", r"quimb/evo\.py$", r"^(\s+)self\._t = t\s*$", None),
         ("inner dagger -> transpose", r"quimb/evo\.py$", r"^(\s+)dag\(x\),\s*$", r"\1x.T,"),
